@@ -82,7 +82,7 @@ def register_yield():
         # at compile time; the harness always passes a column.
 
 
-def run_threads(conns, queries, params, schedule, start_yield=False):
+def run_threads(conns, queries, params, schedule, start_yield=False, fetch_yield=False):
     """run query k on conns[k] in thread k following `schedule`; returns list of canonical results"""
     tags = [chr(ord('A') + k) for k in range(len(queries))]
     sched = Scheduler([tags[t] for t in schedule], len(queries))
@@ -96,7 +96,16 @@ def run_threads(conns, queries, params, schedule, start_yield=False):
                 # a scheduling point before the statement is parsed and compiled: the schedule also decides who compiles first
                 sched.yield_point(tags[k])
             cur = conns[k].execute(queries[k], params[k])
-            results[k] = proto.show_result(cur.description, cur.fetchall(), proto.Content())
+            if fetch_yield:
+                # a scheduling point between executing a statement and reading its result
+                sched.yield_point(tags[k])
+            desc = cur.description
+            rows = []
+            for row in cur:
+                rows.append(row)
+                if fetch_yield and len(rows) == 1:
+                    sched.yield_point(tags[k])
+            results[k] = proto.show_result(desc, rows, proto.Content())
         except Exception as exc:  # noqa: BLE001
             results[k] = 'EXC:%s:%s' % (type(exc).__name__, exc)
         finally:
@@ -223,6 +232,30 @@ def parsed_statement_layer(ctx, lk, text, entries, errors, options):
                     return
 
 
+def deep_statement_layer(ctx, lk, text, entries, errors, options):
+    """a statement nested deeply enough to come near the interpreter's limits, parsed while another statement ends:
+    it gives (or fails with) what it gives serially"""
+    deep = 'SELECT ' + '(' * 20 + 'number' + ' + 1)' * 20 + ' AS n FROM #postings'
+    short = "SELECT vp_yield('x', lineno) AS y, account FROM #postings"
+    for mode in ('shared-connection', 'separate-connections'):
+        ca = ledgers.connect(entries, errors, options)
+        conns = [ca, ca if mode == 'shared-connection' else ledgers.connect(entries, errors, options)]
+        want = [w.split(':')[0] + ':' + w.split(':')[1] if w.startswith('EXC:') else w for w in serial(conns, [short, deep], [None, None])]
+        # the short statement starts, the deep one starts parsing, the short one runs to its end meanwhile
+        for sched in ((0, 1) + (0,) * 400, (1, 0) + (0,) * 400):
+            got = run_threads(conns, [short, deep], [None, None], sched, start_yield=True)
+            ctx.evaluations += 1
+            ctx.count('deep-statement:' + mode)
+            ctx.nontrivial_hashes.add(hash(('deep', mode, sched[:2], lk)))
+            if got is None:
+                raise RuntimeError('scheduler timed out on the deep statement')
+            got = [g.split(':')[0] + ':' + g.split(':')[1] if g.startswith('EXC:') else g for g in got]
+            if got != want:
+                ctx.record_violation('interleaving-changes-result', '%s, a deeply nested statement parsed while another ends: thread results %r, serial %r' % (
+                    mode, [g[:120] for g in got], [w[:120] for w in want]), payload={'ledger': text, 'queries': [short, deep], 'mode': mode})
+                return
+
+
 QUERY_TEMPLATES = [
     ("SELECT balance, vp_yield('x', lineno), balance FROM #postings", None),
     ("SELECT vp_yield('x', lineno), balance FROM #postings WHERE account ~ 'Assets'", None),
@@ -298,6 +331,14 @@ def audit_fingerprint(conn):
                     fp['%s.%s.%s' % (name, cname, attr)] = (type(val).__name__, len(val), repr(val)[:2000])
                 except Exception:  # noqa: BLE001
                     fp['%s.%s.%s' % (name, cname, attr)] = (type(val).__name__, len(val))
+    # interpreter-wide settings every thread shares
+    import decimal
+    import locale
+    fp['sys.getrecursionlimit'] = sys.getrecursionlimit()
+    fp['sys.getswitchinterval'] = sys.getswitchinterval()
+    fp['decimal.DefaultContext'] = repr(decimal.DefaultContext)
+    fp['decimal.getcontext(main thread)'] = repr(decimal.getcontext())
+    fp['locale'] = locale.setlocale(locale.LC_ALL)
     for tname, t in conn.tables.items():
         fp['table:%s' % tname] = (id(t), sorted(vars(t)) if hasattr(t, '__dict__') else None,
                                  len(getattr(t, 'entries', []) or []))
@@ -307,6 +348,9 @@ def audit_fingerprint(conn):
 
 def run(ctx):
     register_yield()
+    # (first: nothing has run concurrently in this process yet, the interpreter-wide settings are what they were at import)
+    t0 = ledgers.gen_ledger(ctx.rng, ntxn=4)
+    deep_statement_layer(ctx, -1, *t0)
     intruder_layer(ctx)
     rng = ctx.rng
     nled = 4 if ctx.thorough() else 2
@@ -350,7 +394,23 @@ def run(ctx):
                 # (schedule, with a scheduling point at the start of each statement): the second statement runs to its end
                 # before the first one is even compiled; the second statement compiles first, then strict alternation
                 runs = [(sc, False) for sc in scheds] + [(tuple([1] * 200 + [0] * 200), True), (tuple([1, 0] * 40), True)]
+                # ... and with scheduling points between execute() and reading the result: both statements executed, then read
+                runs += [(tuple([0, 1] * 60), 'fetch'), (tuple([0] * 200 + [1] * 200 + [0, 1] * 4), 'fetch')]
                 for sched, sy in runs:
+                    if sy == 'fetch':
+                        got = run_threads(conns, queries, params, sched, fetch_yield=True)
+                        ctx.evaluations += 1
+                        ctx.nontrivial_hashes.add(hash((qa, qb, mode, 'fetch', sched[:4], lk)))
+                        ctx.count(mode)
+                        if got is None:
+                            raise RuntimeError('scheduler timed out on %r %r' % (queries, sched[:8]))
+                        if got != want:
+                            ctx.record_violation('interleaving-changes-result',
+                                                 '%s, both statements executed before either result is read, queries %r: thread results %r, serial %r' % (
+                                                     mode, queries, [g[:120] for g in got], [w[:120] for w in want]),
+                                                 payload={'ledger': text, 'queries': queries, 'params': params, 'schedule': sched[:8], 'mode': mode})
+                            break
+                        continue
                     if sy and mode == 'shared-connection':
                         # on a connection nothing has run on yet (what an earlier statement left behind would hide the
                         # order dependence), against the serial order on another such connection
